@@ -597,6 +597,14 @@ func (w *World) annPost(n *wnode) {
 	if len(els) >= 2 && w.r.Chance(0.5) { // mutual relationship
 		els[0].Rels = []annRel{{"PostSynTo", els[1].Pos}}
 		els[1].Rels = []annRel{{"PreSynTo", els[0].Pos}}
+		if els[0].Prop["n"] < "4" { // two relationships between the same pair (no extra random draw: worlds of earlier seeds keep their shape)
+			els[0].Rels = append(els[0].Rels, annRel{"GroupedWith", els[1].Pos})
+			els[1].Rels = append(els[1].Rels, annRel{"GroupedWith", els[0].Pos})
+			if len(els) >= 3 {
+				els[0].Rels = append(els[0].Rels, annRel{"GroupedWith", els[2].Pos})
+				els[2].Rels = []annRel{{"GroupedWith", els[0].Pos}}
+			}
+		}
 	}
 	body, _ := json.Marshal(els)
 	w.must("POST", "node/"+n.uuid+"/ann/elements", body)
@@ -1018,11 +1026,23 @@ func canonRepoInfo(b []byte) string {
 	return strings.Join(lines, "\n")
 }
 
+func commonPrefix(a, b string) int {
+	n := 0
+	for n < len(a) && n < len(b) && a[n] == b[n] {
+		n++
+	}
+	return n
+}
+
 func diffSnap(a, b map[string]string) []string {
 	var out []string
 	for k, v := range a {
 		if b[k] != v {
-			out = append(out, fmt.Sprintf("%s\n    before: %s\n    after:  %s", k, clipS(v), clipS(b[k])))
+			x, y := v, b[k]
+			if p := commonPrefix(x, y); p > 150 { // long values: show them from just before the first difference
+				x, y = "…"+x[p-100:], "…"+y[p-100:]
+			}
+			out = append(out, fmt.Sprintf("%s\n    before: %s\n    after:  %s", k, clipS(x), clipS(y)))
 		}
 	}
 	for k, v := range b {
